@@ -1245,6 +1245,32 @@ func (vc *VC) fnEnvNames(st *State) *Env {
 		}
 		// search executed instructions for a DebugRef of that name (last one wins)
 		var found ssa.Value
+		// an address-taken variable (captured by a closure, or &x taken) lives in its cell
+		for _, b := range vc.fn.Blocks {
+			for _, ins := range b.Instrs {
+				if al, ok := ins.(*ssa.Alloc); ok && al.Comment == name {
+					if x, ok := st.vals[al]; ok {
+						et := al.Type().(*types.Pointer).Elem()
+						if !isPlainStruct(et) {
+							s := sortOf(et)
+							return TV{T: app("select", vc.hget(ce.heap, cellArr(s), arrSort(s)), x.T), S: goSType(et)}, true
+						}
+					}
+				}
+			}
+		}
+		// the value the variable holds at this point of the path (recorded while executing), if known
+		if v, ok := st.names[name]; ok {
+			if x, ok := st.vals[v]; ok && x.T != "" {
+				if _, isAlloc := v.(*ssa.Alloc); !isAlloc {
+					return TV{T: x.T, S: goSType(v.Type())}, true
+				}
+			} else if c, isC := v.(*ssa.Const); isC {
+				if cv := vc.constVal(c); cv.T != "" {
+					return TV{T: cv.T, S: goSType(c.Type())}, true
+				}
+			}
+		}
 		for _, b := range vc.fn.Blocks {
 			for _, ins := range b.Instrs {
 				if dr, ok := ins.(*ssa.DebugRef); ok && !dr.IsAddr {
